@@ -11,6 +11,7 @@ import (
 	"github.com/tychoish/fun"
 	"github.com/tychoish/fun/dt"
 	"github.com/tychoish/fun/itertool"
+	"github.com/tychoish/fun/risky"
 	"verif/simrt"
 )
 
@@ -56,8 +57,10 @@ func c02Source(p *pipe, vals []int) (*fun.Iterator[int], string) {
 	case 1:
 		return fun.VariadicIterator(vals...), "variadic"
 	case 2:
+		// (spawned at once: some stages - JSON, the container conversions -
+		// drain their input while the pipeline is still being built)
 		ch := make(chan int)
-		p.feeders = append(p.feeders, func() {
+		simrt.Spawn("feeder", func() {
 			for _, v := range vals {
 				hsend(ch, v)
 			}
@@ -138,7 +141,63 @@ func c02Stage(ctx context.Context, allowFault bool) stage {
 	if kind != ufNone {
 		fdesc = fmt.Sprintf("[%s@%d]", ufNames[kind], at)
 	}
-	switch simrt.Choose(12) {
+	rev := func(in []int) []int {
+		out := make([]int, len(in))
+		for k, x := range in {
+			out[len(in)-1-k] = x
+		}
+		return out
+	}
+	ident := func(in []int) []int { return in }
+	switch simrt.Choose(14) {
+	case 12:
+		// list conversions: forward, reverse and the destructive variants
+		switch simrt.Choose(5) {
+		case 0:
+			return stage{"List.Iterator", func(i *fun.Iterator[int]) *fun.Iterator[int] {
+				l, _ := dt.NewListFromIterator(ctx, i)
+				return l.Iterator()
+			}, ident}
+		case 1:
+			return stage{"List.Reverse", func(i *fun.Iterator[int]) *fun.Iterator[int] {
+				l, _ := dt.NewListFromIterator(ctx, i)
+				return l.Reverse()
+			}, rev}
+		case 2:
+			return stage{"List.PopIterator", func(i *fun.Iterator[int]) *fun.Iterator[int] {
+				l, _ := dt.NewListFromIterator(ctx, i)
+				return l.PopIterator()
+			}, ident}
+		case 3:
+			return stage{"List.PopReverse", func(i *fun.Iterator[int]) *fun.Iterator[int] {
+				l, _ := dt.NewListFromIterator(ctx, i)
+				return l.PopReverse()
+			}, rev}
+		default:
+			return stage{"risky.List", func(i *fun.Iterator[int]) *fun.Iterator[int] { return risky.List(i).Iterator() }, ident}
+		}
+	case 13:
+		// stack and slice conversions (a stack iterates newest first)
+		switch simrt.Choose(4) {
+		case 0:
+			return stage{"Stack.Iterator", func(i *fun.Iterator[int]) *fun.Iterator[int] {
+				st, _ := dt.NewStackFromIterator(ctx, i)
+				return st.Iterator()
+			}, rev}
+		case 1:
+			return stage{"Stack.PopIterator", func(i *fun.Iterator[int]) *fun.Iterator[int] {
+				st, _ := dt.NewStackFromIterator(ctx, i)
+				return st.PopIterator()
+			}, rev}
+		case 2:
+			return stage{"Slice.Populate", func(i *fun.Iterator[int]) *fun.Iterator[int] {
+				sl := dt.Slice[int]{}
+				_ = sl.Populate(i).Run(ctx)
+				return sl.Iterator()
+			}, ident}
+		default:
+			return stage{"risky.Slice", func(i *fun.Iterator[int]) *fun.Iterator[int] { return fun.SliceIterator(risky.Slice(i)) }, ident}
+		}
 	case 0:
 		return stage{"Filter(odd)", func(i *fun.Iterator[int]) *fun.Iterator[int] { return i.Filter(func(x int) bool { return x%2 == 1 }) },
 			func(in []int) []int {
